@@ -10,7 +10,21 @@ def _safe(fa):
     try:
         return f(a)
     except Exception as ex:
-        return dict(label=str(a)[:80], n=0, sigs=[], sample=None,
+        # An exception raised *inside the code under contract* (innermost frame in <repo>/onsager) on a harness input is the library
+        # refusing or failing on a valid input: a verdict about the code (the harness inputs are fixed and return on the unchanged tree).
+        # An exception raised in the harness itself is a checker fault.
+        import os
+        from ..common import REPO
+        tb = traceback.extract_tb(ex.__traceback__)
+        root = os.path.realpath(os.path.join(REPO, 'onsager')) + os.sep
+        inner = tb[-1] if tb else None
+        lbl = '/'.join(str(x) for x in a[:2])[:80] if isinstance(a, tuple) else str(a)[:80]
+        if inner is not None and os.path.realpath(inner.filename).startswith(root):
+            where = '%s:%d in %s' % (os.path.relpath(os.path.realpath(inner.filename), os.path.realpath(REPO)), inner.lineno, inner.name)
+            return dict(label=lbl, n=1, sigs=[], sample=None,
+                        viols=[dict(clause='no-exception-from-the-code-under-contract', detail='%s: %s (raised at %s)' % (type(ex).__name__, str(ex)[:300], where),
+                                    signature='%s@%s' % (type(ex).__name__, inner.name))])
+        return dict(label=lbl, n=0, sigs=[], sample=None,
                     viols=[], crash='%s: %s\n%s' % (type(ex).__name__, ex, traceback.format_exc()[-1200:]))
 
 
